@@ -244,6 +244,8 @@ def omission(ctx):
             return
         if t[0] == 'setitem' and t[2] == T.C('sign'):
             emits.append(list(guards))
+        if t[0] == 'dict' and any(kv[0] == 'kw' and kv[1] == T.C('sign') for kv in t[1]):
+            emits.append(list(guards))
         for c in T.children(t):
             walk(c, guards)
     walk(wj, [])
